@@ -227,6 +227,8 @@ pub fn alphabet(name: &str) -> Vec<&'static str> {
         "cluster" => vec!["\r\n", "e\u{0301}", "🇩🇪", "👨\u{200D}👩", "a\u{0308}", "x"],
         // tab as whitespace, ideographic space is in "wide"
         "tab" => vec!["\t", "x", "y", "z", "u", "v"],
+        // tokenizer texts: a, a-umlaut, e + combining acute, space, <, p, >, emoji
+        "tok" => vec!["a", "ä", "e\u{0301}", " ", "<", "p", ">", "😀"],
         "wide" => vec!["\u{3000}", "字", "é", "\u{200B}", "q", "r"],
         _ => panic!("unknown alphabet {name}"),
     }
